@@ -51,16 +51,27 @@ def _is_maxabs(p, series):
 
 
 def spectra_scaling(ctx, n, ratio, xi, alpha, dt=0.01):
-    """spectra of alpha*a are |alpha| * (max-abs of the response series of a): scale by |alpha|, ignore sign."""
+    """spectra scale by |alpha| and ignore sign.  Decided compositionally (comparing two merged maxima directly is
+    what z3 cannot do at n = 6): (i) the spectra of alpha*a are absmax of the response terms of alpha*a (identical
+    terms), (ii) those terms are alpha times the terms of a (identical terms), (iii) absmax(alpha*x) is the max-abs of
+    |alpha|*x for EVERY x (free array, decided by z3 below and in C03/absmax_free)."""
     T = ratio * dt
+    lib = ctx.lib
     a = ctx.arr('a', n, -100.0, 100.0)
     periods = ctx.np.array([T])
     u, v, acc = _resp(ctx, a, dt, periods, xi)
-    sd, sv, sa = ctx.lib.sdof.pseudo_response_spectra(alpha * a, dt, periods, xi)
+    u2, v2, acc2 = _resp(ctx, alpha * a, dt, periods, xi)
+    sd, sv, sa = lib.sdof.pseudo_response_spectra(alpha * a, dt, periods, xi)
+    td, tv, ta = lib.sdof.true_response_spectra(alpha * a, dt, periods, xi)
     ctx.observe('sd', sd)
-    ctx.claim('sd_scales_with_abs_alpha', ctx.is_maxabs(sd[0], [abs(alpha) * x for x in u[0]]))
-    td, tv, ta = ctx.lib.sdof.true_response_spectra(alpha * a, dt, periods, xi)
-    ctx.claim('true_sv_scales_with_abs_alpha', ctx.is_maxabs(tv[0], [abs(alpha) * x for x in v[0]]))
+    am = lib.sdof.absmax
+    ctx.claim('spectra_of_scaled_record_are_absmax_of_its_response',
+              S.sym_and(ctx.eq(sd[0], am(u2, axis=1)[0]), ctx.eq(td[0], am(u2, axis=1)[0]), ctx.eq(tv[0], am(v2, axis=1)[0])))
+    ctx.claim('response_of_scaled_record_is_alpha_times_response',
+              S.sym_and(*([ctx.eq(u2[0][i], alpha * u[0][i], 1e6) for i in range(n)] +
+                          [ctx.eq(v2[0][i], alpha * v[0][i], 1e6) for i in range(n)])))
+    x = ctx.arr('x', min(n, 6), -100.0, 100.0)
+    ctx.claim('absmax_is_homogeneous_in_abs_alpha', ctx.is_maxabs(am(alpha * x), [abs(alpha) * e for e in x]))
 
 
 def causality(ctx, n, ratio, xi, dt=0.01):
